@@ -305,7 +305,21 @@ theorem accIntended_spec (ps : List Part) (acc : Nat) :
       · rw [this.1]; constructor <;> intro _ <;> omega
       · intro h2; rw [this.2 h2]; omega
 
-theorem sortParts_perm (l : List Part) : (sortParts l).Perm l := List.mergeSort_perm _ _
+theorem insertPart_perm (p : Part) (l : List Part) : (insertPart p l).Perm (p :: l) := by
+  induction l with
+  | nil => exact List.Perm.refl _
+  | cons q qs ih =>
+    simp only [insertPart]
+    split
+    · exact List.Perm.refl _
+    · exact (List.Perm.cons q ih).trans (List.Perm.swap p q qs)
+
+theorem sortParts_perm (l : List Part) : (sortParts l).Perm l := by
+  induction l with
+  | nil => exact List.Perm.refl _
+  | cons a l ih =>
+    simp only [sortParts, List.foldr_cons] at ih ⊢
+    exact (insertPart_perm a _).trans (List.Perm.cons a ih)
 
 theorem sumValue_perm {l₁ l₂ : List Part} (h : l₁.Perm l₂) : sumValue l₁ = sumValue l₂ :=
   (h.map _).sum_nat
